@@ -231,6 +231,10 @@ class C01(Check):
         for t in ("translation", "similarity", "affine", "tps"):
             for order in (0, 1):
                 out.append(("warp_to_shape", t, order))
+        # user-supplied transforms in other legal forms: integer-dtype matrices (menpo keeps the dtype it is given)
+        for t in ("affine-int", "similarity-int", "translation-int"):
+            out.append(("warp_to_shape", t, 1))
+            out.append(("warp_to_mask", t, 1))
         # pure translations whose sampled window stays inside the source: integer, fraction below and above one half,
         # negative fraction (each rounds differently under floor / truncation / round-to-nearest)
         for shift in ((1.0, 2.0), (1.3, 2.4), (2.6, 1.7), (0.6, 0.7)):
@@ -342,6 +346,14 @@ class C01(Check):
             t.set_target(_PC(final) if dom is None else type(t.target)(final, t.target.trilist))
             self.note("reuse:%s" % name)
             return t, dom
+        if name in ("affine-int", "similarity-int", "translation-int"):
+            h = {
+                "affine-int": [[1, 1, 0], [0, 2, 1], [0, 0, 1]],  # shear + anisotropic scale, template -> source
+                "similarity-int": [[0, -2, 7], [2, 0, 0], [0, 0, 1]],  # quarter turn x 2
+                "translation-int": [[1, 0, 1], [0, 1, 2], [0, 0, 1]],
+            }[name]
+            cls = {"affine-int": mt.Affine, "similarity-int": mt.Similarity, "translation-int": mt.Affine}[name]
+            return cls(np.array(h, dtype=np.int64)), None
         if name in ("translation", "similarity", "affine"):
             return self._affine_letter(name, nd, img.shape, tpl_shape), None
         # control points in the source image = all landmark points + the 4 corners of an inner box
